@@ -1,0 +1,18 @@
+//go:build verif
+
+package btree
+
+// Contracts for govc (contract-based deductive verification, see /verif/DESIGN.md), property C03: the slice
+// helpers, the binary search and the node-local steps of the vendored B-tree. The recursive descent (insert, remove,
+// iterate over whole subtrees) stays with the bounded stand-in. Comments only; compiled only with the tag `verif`.
+
+//@ arith int
+//@ property C03
+//
+//@ func items.insertAt
+//@   requires s != nil && 0 <= index && index <= len(deref(s))
+//@   ensures #length len(deref(s)) == old(len(deref(s))) + 1
+//@   ensures #before forall j int :: 0 <= j && j < index ==> deref(s)[j] == old(deref(s)[j])
+//@   ensures #placed deref(s)[index] == item
+//@   ensures #after forall j int :: index < j && j < len(deref(s)) ==> deref(s)[j] == old(deref(s)[j-1])
+//@   modifies deref(s), region($alloc), deref(s)[0:cap(deref(s))]
